@@ -552,8 +552,8 @@ PAIRS = [('obsdup', 'sampdup'), ('obsdup', 'obsmdsize'), ('obsdup', 'obssize'), 
 
 
 def reactions2(chunk, acc):
-    """an input that triggers two kinds: each kind's own reaction is what happens, in kind order, up to and
-    including the first 'raise'"""
+    """an input that triggers two kinds: each kind's own reaction is what happens (`want` below is what the
+    library does today - kind order, up to the first 'raise' - and is only used in the message)"""
     import biom.err as err
     from biom.exception import TableException
     msgs = dict(zip(KINDS, [err.EMPTY, err.OBSSIZE, err.SAMPSIZE, err.OBSDUP, err.SAMPDUP, err.OBSMDSIZE,
@@ -591,7 +591,21 @@ def reactions2(chunk, acc):
                 want['called'].append(cb)
         acc.trans += 1
         acc.evals += 1
-        if got != want:
+        # the order in which the two kinds are looked at is not part of the property: without a 'raise' both
+        # reactions must have happened (in any order); with one, the exception of a kind set to 'raise' must
+        # arrive, and whatever else was observed must be a reaction that was configured
+        raising = [msgs[k] for k, r in ((k1, r1), (k2, r2)) if r == 'raise']
+        full = {'warned': sorted(msgs[k] for k, r in ((k1, r1), (k2, r2)) if r == 'warn'),
+                'printed': sorted(msgs[k] + '\n' for k, r in ((k1, r1), (k2, r2)) if r == 'print'),
+                'called': sorted(cb for (k, r), cb in (((k1, r1), 'cb_one'), ((k2, r2), 'cb_two')) if r == 'call')}
+        seen = {'warned': sorted(got['warned']), 'printed': sorted(got['printed'].splitlines(True)),
+                'called': sorted(got['called'])}
+        if raising:
+            ok = got['raised'] is not None and got['raised'][0] == 'TableException' and got['raised'][1] in raising \
+                and all(set(seen[f]) <= set(full[f]) and len(seen[f]) <= len(full[f]) for f in full)
+        else:
+            ok = got['raised'] is None and seen == full
+        if not ok:
             acc.violation('reaction:two-kinds', 'input triggering %s and %s under %s=%r, %s=%r (all others ignore): '
                           'observed %r, expected %r' % (k1, k2, k1, r1, k2, r2, got, want), case)
         else:
